@@ -121,3 +121,61 @@ Lemma to_u64_range z : 0 <= to_u64 z < two64.
 Proof. unfold to_u64, two64. apply Z.mod_pos_bound. lia. Qed.
 Lemma to_u64_id z : 0 <= z < two64 -> to_u64 z = z.
 Proof. unfold to_u64. intros. apply Z.mod_small. assumption. Qed.
+
+(* ---- 128 bits (appended by the additions engine, C30): Rust's `u128 as i128` of a v128 constant ---- *)
+Definition two127 : Z := 170141183460469231731687303715884105728.            (* 2^127 *)
+Definition two128 : Z := 340282366920938463463374607431768211456.            (* 2^128 *)
+Lemma two127_pow : two127 = 2 ^ 127. Proof. reflexivity. Qed.
+Lemma two128_pow : two128 = 2 ^ 128. Proof. reflexivity. Qed.
+Definition to_u128 (z : Z) : Z := z mod two128.
+Definition wrap_s128 (z : Z) : Z := (z + two127) mod two128 - two127.
+Definition as_i128 (v : Z) : Z := if v <? two127 then v else v - two128.
+Definition in_u128 (z : Z) : bool := (0 <=? z) && (z <? two128).
+Definition in_i128 (z : Z) : bool := (- two127 <=? z) && (z <? two127).
+Lemma in_u128_iff z : in_u128 z = true <-> 0 <= z < two128.
+Proof. unfold in_u128. rewrite Bool.andb_true_iff, Z.leb_le, Z.ltb_lt. tauto. Qed.
+Lemma in_i128_iff z : in_i128 z = true <-> - two127 <= z < two127.
+Proof. unfold in_i128. rewrite Bool.andb_true_iff, Z.leb_le, Z.ltb_lt. tauto. Qed.
+
+Lemma as_i128_range v : 0 <= v < two128 -> - two127 <= as_i128 v < two127.
+Proof. unfold as_i128, two127, two128. intros H. destruct (Z.ltb_spec v 170141183460469231731687303715884105728); lia. Qed.
+Lemma to_u128_as_i128 v : 0 <= v < two128 -> to_u128 (as_i128 v) = v.
+Proof.
+  unfold to_u128, as_i128, two127, two128. intros H. destruct (Z.ltb_spec v 170141183460469231731687303715884105728).
+  - apply Z.mod_small. lia.
+  - symmetry. apply (Z.mod_unique _ _ (-1)); lia.
+Qed.
+Lemma as_i128_to_u128 z : - two127 <= z < two127 -> as_i128 (to_u128 z) = z.
+Proof.
+  unfold to_u128, as_i128, two127, two128. intros H.
+  destruct (Z.neg_nonneg_cases z) as [Hn | Hp].
+  - assert (E : z mod 340282366920938463463374607431768211456 = z + 340282366920938463463374607431768211456)
+      by (symmetry; apply (Z.mod_unique _ _ (-1)); lia).
+    rewrite E. destruct (Z.ltb_spec (z + 340282366920938463463374607431768211456) 170141183460469231731687303715884105728); lia.
+  - rewrite Z.mod_small by lia. destruct (Z.ltb_spec z 170141183460469231731687303715884105728); lia.
+Qed.
+Lemma as_i128_inj a b : 0 <= a < two128 -> 0 <= b < two128 -> as_i128 a = as_i128 b -> a = b.
+Proof. intros Ha Hb E. rewrite <- (to_u128_as_i128 a Ha), <- (to_u128_as_i128 b Hb), E. reflexivity. Qed.
+(* Rust's `v as i128` on a u128 is that reinterpretation *)
+Lemma wrap_s128_u128 v : 0 <= v < two128 -> wrap_s128 v = as_i128 v.
+Proof.
+  unfold wrap_s128, as_i128, two127, two128. intros H. destruct (Z.ltb_spec v 170141183460469231731687303715884105728).
+  - rewrite Z.mod_small; lia.
+  - assert (E : (v + 170141183460469231731687303715884105728) mod 340282366920938463463374607431768211456
+                = v - 170141183460469231731687303715884105728) by (symmetry; apply (Z.mod_unique _ _ 1); lia).
+    rewrite E. lia.
+Qed.
+Lemma wrap_s128_id z : - two127 <= z < two127 -> wrap_s128 z = z.
+Proof. unfold wrap_s128, two127, two128. intros H. rewrite Z.mod_small; lia. Qed.
+Lemma wrap_s128_range z : - two127 <= wrap_s128 z < two127.
+Proof.
+  unfold wrap_s128, two127, two128.
+  pose proof (Z.mod_pos_bound (z + 170141183460469231731687303715884105728) 340282366920938463463374607431768211456 ltac:(lia)). lia.
+Qed.
+Lemma to_u128_range z : 0 <= to_u128 z < two128.
+Proof. unfold to_u128, two128. apply Z.mod_pos_bound. lia. Qed.
+Lemma to_u128_id z : 0 <= z < two128 -> to_u128 z = z.
+Proof. unfold to_u128. intros. apply Z.mod_small. assumption. Qed.
+(* the bits survive the cast: the unsigned reading of `u as i128` is u again *)
+Lemma to_u128_wrap_s128 u : 0 <= u < two128 -> to_u128 (wrap_s128 u) = u.
+Proof. intros H. rewrite wrap_s128_u128 by exact H. apply to_u128_as_i128. exact H. Qed.
